@@ -3,8 +3,6 @@ package files
 import (
 	"os"
 	"strings"
-
-	"github.com/jmeaster30/vore/libvore/algo"
 )
 
 type PathEntryType int
@@ -51,35 +49,29 @@ func ParsePath(path string) *Path {
 }
 
 func pathMatches(target string, matches string) bool {
-	if !strings.ContainsRune(matches, '*') {
-		return target == matches
-	}
-
-	matchParts := algo.Window(algo.SplitKeep(matches, "*"), 2)
-
-	result := true
-	for _, part := range matchParts {
-		if len(part) == 1 {
-			if part[0] != "*" && target != part[0] {
-				result = false
-			}
-			break
-		} else if part[0] == "*" {
-			splitStart := strings.Index(target, part[1])
-			if splitStart == -1 {
-				target = ""
-			} else {
-				target = target[splitStart:]
-			}
-		} else if strings.HasPrefix(target, part[0]) {
-			target = strings.TrimPrefix(target, part[0])
-			// FIXME doesn't account for relative folders ie `./docs/examples`
+	// FIXME doesn't account for relative folders ie `./docs/examples`
+	targetIdx, matchIdx := 0, 0
+	starIdx, starTargetIdx := -1, 0
+	for targetIdx < len(target) {
+		if matchIdx < len(matches) && matches[matchIdx] == '*' {
+			// remember the star so we can come back and let it take more of the target
+			starIdx, starTargetIdx = matchIdx, targetIdx
+			matchIdx += 1
+		} else if matchIdx < len(matches) && matches[matchIdx] == target[targetIdx] {
+			targetIdx += 1
+			matchIdx += 1
+		} else if starIdx != -1 {
+			starTargetIdx += 1
+			targetIdx = starTargetIdx
+			matchIdx = starIdx + 1
 		} else {
-			result = false
-			break
+			return false
 		}
 	}
-	return result
+	for matchIdx < len(matches) && matches[matchIdx] == '*' {
+		matchIdx += 1
+	}
+	return matchIdx == len(matches)
 }
 
 func directoryExists(entries []os.DirEntry, name string) bool {
